@@ -2,6 +2,7 @@ import Driver.Util
 import MdspanVerif.Model.LayoutI
 import MdspanVerif.Model.View
 import MdspanVerif.Model.ExtentsM
+import MdspanVerif.Model.Access
 /-! `view` op family: mdspan construction paths, pool operations, observers, access forms. -/
 open Mdspan
 namespace Drv
@@ -160,8 +161,8 @@ def vstep (c : VCtx) (s : VState) (cmd : String) : M VState := do
       match (if a.getD 2 "" == "br1" && v.m.extents.length != 1 then none else parseTy (a.getD 3 "")) with
       | none => pure (emit "no-form")
       | some S =>
-        let idx := (l 4).map (fun x => c.T.wrap (S.wrap x))
-        let off0 ← v.m.offM c.T idx
+        let idx := mappingArgs c.T S .pack (l 4)
+        let off0 ← accessOffset c.T S .pack v.m (l 4)      -- `Model/Access.lean`; C03_forms_agree: the same for every spelling
         let spn ← v.m.spanM c.T
         let off := if c.kind == "ulog" then c.T.wrap (1 + off0) else if c.kind == "urev" then c.T.wrap (spn - 1 - off0) else off0
         let shift : Int := if c.acc == "sh" then 1000 else 0
